@@ -16,10 +16,19 @@
 //! `dense run` reads input lines on stdin and prints them followed by
 //!     ` => <obs>;<obs>;...;END&<fin0>&<fin1>&<fin2>`
 //! where each per-op observation is `<m0>&<m1>&<m2>&E<9 bits>&N<9 bits>`,
-//! `<mi>` = `rows|stride|aligned|ravelok|capacity|contents|U<v> or -` (U<v>: every cell of ravel(), padding
+//! `<mi>` = `rows|stride|addrs|ravelok|capacity|contents|U<v> or -` (addrs: the address of every row,
+//! `m[r].as_ptr() as usize`, comma separated, `-` when there is no row; U<v>: every cell of ravel(), padding
 //! included, holds v), E/N the results of `==` / `!=`
 //! for all register pairs (a-major); `P` when the operation panicked (which ends the case);
-//! `<fin>` = `iter|rev|into|intomut|mixed|mixedmut|mixedinto|lens|eqclone|eqpad|eqmod`.
+//! `<fin>` = `iter|rev|into|intomut|mixed|mixedmut|mixedinto|lens|eqclone|eqpad|eqmod` with eqclone = two bits
+//! (m == m.clone(), m != m.clone()), eqpad = three bits (copy == m, m == copy, copy != m), eqmod one bit.
+//! A `STEPS&<st0>&<st1>&<st2>` item always follows (empty call list when the input has no `steps=`).
+//!
+//! Cell values travel as i64.  For u8/u32/i64 the value itself.  For f32 a CODE: an integer i with
+//! |i| <= 2^24 (except -0.0) is the code of `i as f32`; every other value (NaN, -0.0, infinities,
+//! fractions) has the code 2^40 + its bit pattern.  `to_i` always produces this canonical code, so
+//! two cells hold the same bits iff their codes are equal; `==` on f32 is NOT that (NaN, 0.0 == -0.0):
+//! coq/dense/DenseF32.v models it on the codes.
 
 use generic_array::ArrayLength;
 use lightmotif::dense::DenseMatrix;
@@ -55,12 +64,28 @@ impl Val for u32 {
         self as i64
     }
 }
+const F32_BASE: i64 = 1 << 40;
+const F32_NAN: i64 = F32_BASE + 0x7fc0_0000;
+const F32_NAN2: i64 = F32_BASE + 0xffc0_0001;
+const F32_NEGZERO: i64 = F32_BASE + 0x8000_0000;
+const F32_INF: i64 = F32_BASE + 0x7f80_0000;
+const F32_NEGINF: i64 = F32_BASE + 0xff80_0000;
+const F32_HALF: i64 = F32_BASE + 0x3f00_0000;
 impl Val for f32 {
     fn from_i(i: i64) -> Self {
-        i as f32
+        if i >= F32_BASE {
+            f32::from_bits((i - F32_BASE) as u32)
+        } else {
+            i as f32
+        }
     }
     fn to_i(self) -> i64 {
-        self as i64
+        let integral = self.is_finite() && self.fract() == 0.0 && self.abs() <= 16777216.0;
+        if integral && self.to_bits() != 0x8000_0000 {
+            self as i64
+        } else {
+            F32_BASE + self.to_bits() as i64
+        }
     }
 }
 impl Val for i64 {
@@ -245,19 +270,11 @@ fn observe<T: Val, C: ArrayLength>(m: &DenseMatrix<T, C>) -> String {
     // iteration sees and flag layout as broken instead of touching them
     let it_rows: Vec<Vec<i64>> = m.iter().map(row_i).collect();
     if it_rows.len() != rows {
-        return format!("{}|{}|0|0|{}|{}|-", rows, stride, cap, show_rows(&it_rows));
+        return format!("{}|{}|-|0|{}|{}|-", rows, stride, cap, show_rows(&it_rows));
     }
-    let mut aligned = true;
-    for r in 0..rows {
-        let p = m[r].as_ptr() as usize;
-        if p % ALIGN != 0 {
-            aligned = false;
-        }
-        let p0 = m[0].as_ptr() as usize;
-        if p != p0 + r * stride * std::mem::size_of::<T>() {
-            aligned = false;
-        }
-    }
+    // the address of every row: the property (alignment, spacing) is decided by the checker
+    let addrs: Vec<String> = (0..rows).map(|r| (m[r].as_ptr() as usize).to_string()).collect();
+    let addrs = if addrs.is_empty() { "-".to_string() } else { addrs.join(",") };
     let contents: Vec<Vec<i64>> = (0..rows)
         .map(|r| (0..m.columns()).map(|c| m[r][c].to_i()).collect())
         .collect();
@@ -266,7 +283,10 @@ fn observe<T: Val, C: ArrayLength>(m: &DenseMatrix<T, C>) -> String {
     if ravelok {
         for r in 0..rows {
             for c in 0..m.columns() {
-                if rav[r * stride + c] != m[r][c] || m[MatrixCoordinates::new(r, c)] != m[r][c] {
+                // identity of the cells (bit patterns), not `==` (NaN)
+                if rav[r * stride + c].to_i() != m[r][c].to_i()
+                    || m[MatrixCoordinates::new(r, c)].to_i() != m[r][c].to_i()
+                {
                     ravelok = false;
                 }
             }
@@ -274,14 +294,14 @@ fn observe<T: Val, C: ArrayLength>(m: &DenseMatrix<T, C>) -> String {
     }
     // the whole flat view (padding included) holds one value: what fill() must achieve
     let uniform = match rav.first() {
-        Some(v0) if rav.iter().all(|x| x == v0) => format!("U{}", v0.to_i()),
+        Some(v0) if rav.iter().all(|x| x.to_i() == v0.to_i()) => format!("U{}", v0.to_i()),
         _ => "-".to_string(),
     };
     format!(
         "{}|{}|{}|{}|{}|{}|{}",
         rows,
         stride,
-        aligned as u8,
+        addrs,
         ravelok as u8,
         cap,
         show_rows(&contents),
@@ -507,7 +527,7 @@ fn final_obs<T: Val, C: ArrayLength + PartialEq>(m: &DenseMatrix<T, C>, pat: &[b
             mixed_into.push(r.map(row_i));
         }
     }
-    let eqclone = *m == m.clone() && !(*m != m.clone());
+    let eqclone = format!("{}{}", (*m == m.clone()) as u8, (*m != m.clone()) as u8);
     // same logical cells; different history, capacity and padding
     let mut c: DenseMatrix<T, C> = DenseMatrix::with_capacity(it.len() + 2, it.len() + 7);
     c.fill(T::from_i(99));
@@ -517,7 +537,7 @@ fn final_obs<T: Val, C: ArrayLength + PartialEq>(m: &DenseMatrix<T, C>, pat: &[b
             c[r][k] = T::from_i(*x);
         }
     }
-    let eqpad = c == *m && *m == c && !(c != *m);
+    let eqpad = format!("{}{}{}", (c == *m) as u8, (*m == c) as u8, (c != *m) as u8);
     // one logical cell changed
     let mut c2 = m.clone();
     if !it.is_empty() && c2.columns() > 0 {
@@ -535,13 +555,13 @@ fn final_obs<T: Val, C: ArrayLength + PartialEq>(m: &DenseMatrix<T, C>, pat: &[b
         show_opt_rows(&mixed_mut),
         show_opt_rows(&mixed_into),
         lens.iter().map(|x| x.to_string()).collect::<Vec<_>>().join(","),
-        eqclone as u8,
-        eqpad as u8,
+        eqclone,
+        eqpad,
         eqmod as u8
     )
 }
 
-fn run_case<T: Val, C: ArrayLength + PartialEq>(ops: &[ROp], pat: &[bool], steps: Option<&[Step]>) -> String {
+fn run_case<T: Val, C: ArrayLength + PartialEq>(ops: &[ROp], pat: &[bool], steps: &[Step]) -> String {
     let mut regs: Vec<DenseMatrix<T, C>> = (0..NREG).map(|_| DenseMatrix::new(0)).collect();
     let mut out: Vec<String> = vec![];
     for op in ops {
@@ -564,16 +584,14 @@ fn run_case<T: Val, C: ArrayLength + PartialEq>(ops: &[ROp], pat: &[bool], steps
         Some(f) => out.push(format!("END&{}", f)),
         None => out.push("OBSPANIC".to_string()),
     }
-    if let Some(st) = steps {
-        match no_panic(|| regs.iter().map(|m| steps_obs(m, st)).collect::<Vec<_>>().join("&")) {
-            Some(f) => out.push(format!("STEPS&{}", f)),
-            None => out.push("STEPSPANIC".to_string()),
-        }
+    match no_panic(|| regs.iter().map(|m| steps_obs(m, steps)).collect::<Vec<_>>().join("&")) {
+        Some(f) => out.push(format!("STEPS&{}", f)),
+        None => out.push("STEPSPANIC".to_string()),
     }
     out.join(";")
 }
 
-fn dispatch(ty: &str, c: usize, ops: &[ROp], pat: &[bool], steps: Option<&[Step]>) -> String {
+fn dispatch(ty: &str, c: usize, ops: &[ROp], pat: &[bool], steps: &[Step]) -> String {
     macro_rules! cols {
         ($t:ty) => {
             match c {
@@ -614,6 +632,7 @@ struct Gen<'a> {
     c: usize,
     rows: [usize; NREG], // tracked to generate mostly-valid indices
     ops: Vec<ROp>,
+    special: bool, // f32 only: NaN / -0.0 / infinities / fractions among the cell values
 }
 
 impl<'a> Gen<'a> {
@@ -647,6 +666,10 @@ impl<'a> Gen<'a> {
 
     /// a cell value the element type represents exactly: mostly small, sometimes an extreme
     fn val(&mut self) -> i64 {
+        if self.special && self.rng.chance(1, 6) {
+            // values on which `==` is not identity (NaN != NaN, 0.0 == -0.0) and non-integers
+            return *self.rng.pick(&[F32_NAN, F32_NEGZERO, 0, F32_NEGZERO, F32_NAN2, F32_INF, F32_NEGINF, F32_HALF, 0]);
+        }
         if self.rng.chance(4, 5) {
             return self.rng.range(0, 200);
         }
@@ -919,12 +942,14 @@ fn gen_case(rng: &mut Rng, id: usize, tier: &str) -> String {
             _ => Step::NthBack(rng.below(4) as usize),
         })
         .collect();
+    let special = ty == "f32" && rng.chance(2, 5);
     let mut g = Gen {
         rng,
         ty,
         c,
         rows: [0; NREG],
         ops: vec![],
+        special,
     };
     if g.rng.chance(2, 5) {
         g.scenario();
@@ -970,8 +995,8 @@ fn main() {
                     .chars()
                     .map(|c| c == '1')
                     .collect();
-                let steps: Option<Vec<Step>> = f.get("steps").map(|s| parse_steps(s));
-                let obs = dispatch(&f["T"], f["C"].parse().unwrap(), &ops, &pat, steps.as_deref());
+                let steps: Vec<Step> = f.get("steps").map(|s| parse_steps(s)).unwrap_or_default();
+                let obs = dispatch(&f["T"], f["C"].parse().unwrap(), &ops, &pat, &steps);
                 println!("{} => {}", line, obs);
             }
         }
